@@ -428,7 +428,7 @@ Lemma sim_loop : forall K n n' w w' now now' tr tr' wf nf trf wf' nf' trf',
   (n + n' <= K)%nat -> Gen sc w tr -> Rel w w' -> others (items tr) = others (items tr') ->
   iter_nat n (loop_step sc) (w, now, tr) = inr (wf, nf, trf) ->
   iter_nat n' (loop_step sc') (w', now', tr') = inr (wf', nf', trf') ->
-  others (items trf) = others (items trf').
+  others (items trf) = others (items trf') /\ Rel wf wf'.
 Proof.
   induction K as [|K IH]; intros n n' w w' now now' tr tr' wf nf trf wf' nf' trf' Hle HG HR Ho Hn Hn'.
   - assert (n = 0%nat) by lia. subst n. cbn [iter_nat] in Hn. discriminate.
@@ -446,7 +446,7 @@ Proof.
         eapply (IH n n'); [lia| |exact R| |exact Hn|exact Hn'].
         -- eapply G1; [exact HG|]. apply (S_loop sc w t ev f1 Hf).
         -- rewrite !Litems, Ho, O. reflexivity.
-      * injection Hn as <- <- <-. injection Hn' as <- <- <-. exact Ho.
+      * injection Hn as <- <- <-. injection Hn' as <- <- <-. split; [exact Ho|split; [left; exact HS|split; assumption]].
     + (* module m is dead in both *)
       pose proof HD as [a [b1 b2] [s1 s2] [c d] fr [n1 n2]].
       destruct (fes_fetch (w_fes w)) as [[[t ev] f1]|] eqn:Hf.
@@ -484,7 +484,7 @@ Proof.
               ** intros j Hj. rewrite I1 by exact Hj. apply a, Hj.
               ** apply FesRel_sym, I7, FesRel_sym, fr.
            ++ rewrite Litems, Ho. unfold loop_rec. cbn [snd e_items]. rewrite I8. cbn [app]. rewrite others_sample, app_nil_r. reflexivity.
-        -- injection Hn as <- <- <-. injection Hn' as <- <- <-. exact Ho.
+        -- injection Hn as <- <- <-. injection Hn' as <- <- <-. split; [exact Ho|split; [right; exact HD|split; assumption]].
 Qed.
 
 (* ---- the start-up phase, in lock step ---- *)
@@ -567,12 +567,15 @@ Proof.
   split; [exact Wi|rewrite If; exact Wi].
 Qed.
 
-(* ---- the theorem ---- *)
+(* ---- both runs, up to the tear-down ---- *)
 Definition events_of (tr : list erec) : list erec := filter (fun e => negb (is_end e)) tr.
 
-Theorem others_as_if_silent :
+(* the two event loops end in related worlds, having produced the same records for the other modules *)
+Lemma silent_final :
   r_ok (run_script sc) = true -> r_ok (run_script sc') = true ->
-  others (items (events_of (trace sc))) = others (items (events_of (trace sc'))).
+  exists w n tr w' n' tr', Gen sc w tr /\ Gen sc' w' tr' /\ fes_fetch (w_fes w) = None /\ fes_fetch (w_fes w') = None /\
+    Rel w w' /\ others (items tr) = others (items tr') /\
+    trace sc = tr ++ snd (end_seq sc n (mods sc) w) /\ trace sc' = tr' ++ snd (end_seq sc' n' (mods sc') w').
 Proof.
   unfold trace, run_script. pose proof sim_start_sim as [HG HR Ht Ho].
   pose proof (boot_gen sc) as HB. pose proof (boot_gen sc') as HB'. unfold boot_trace, boot_rec in HB, HB'.
@@ -582,10 +585,10 @@ Proof.
   pose proof (iter_gen sc' (Pos.to_nat (fuel sc')) w0' 0 _ HB') as I2.
   destruct (iter_nat (Pos.to_nat (fuel sc)) (loop_step sc) _) as [[[w n] tr]|[[w n] tr]] eqn:E1; [cbn; discriminate|].
   destruct (iter_nat (Pos.to_nat (fuel sc')) (loop_step sc') _) as [[[w' n'] tr']|[[w' n'] tr']] eqn:E2; [cbn; discriminate|].
-  intros _ _. destruct I1 as [I1 _]. destruct I2 as [I2 _].
-  unfold sim_end. rewrite !sim_end_eq. cbn [app r_trace]. unfold events_of.
-  rewrite !filter_app, (gen_no_end sc w tr I1), (gen_no_end sc' w' tr' I2), !end_seq_all_end, !app_nil_r.
-  eapply (sim_loop _ _ _ w0 w0' 0 0); [apply Nat.le_refl|exact HB|exact HR| |exact E1|exact E2].
-  rewrite !items_snoc, !others_app, Ho. reflexivity.
+  intros _ _. destruct I1 as [I1 F1]. destruct I2 as [I2 F2].
+  unfold sim_end. rewrite !sim_end_eq. cbn [app r_trace].
+  destruct (sim_loop _ _ _ w0 w0' 0 0 _ _ _ _ _ _ _ _ (Nat.le_refl _) HB HR
+              ltac:(rewrite !items_snoc, !others_app, Ho; reflexivity) E1 E2) as [O R].
+  exists w, n, tr, w', n', tr'. repeat split; assumption.
 Qed.
 End Silent.
